@@ -5,7 +5,7 @@
 jmp_buf shim_jb;
 volatile int shim_armed, shim_aborted;
 char shim_assert_msg[256];
-int shim_in_lib;
+volatile int shim_in_lib;  /* volatile: gcc knows malloc/free do not touch globals and would drop stores around them */
 shim_blk shim_blks[SHIM_MAXBLK];
 int shim_nblk;
 shim_ev shim_evs[SHIM_MAXEV];
